@@ -174,7 +174,9 @@ def utf8_str(st, rope):
 def str_utf8(st, s):
     """UTF-8 octets of an encodable str."""
     if isinstance(s, str):
-        return s.encode('utf-8')
+        # (a str that is not encodable has no UTF-8 form; guards that mention its length are conjoined with
+        #  str_encodable, so any total stand-in will do for concrete evaluation)
+        return s.encode('utf-8', 'surrogatepass')
     t = st.str_term(s)
     return SBytes([st.new_chunk(term=sym.utf8(t))])
 
